@@ -198,6 +198,22 @@ def in_scope(f, off):
     return f['key'] in off
 
 
+_FPOWM_ROWS = {}
+
+
+def fpowm_rows(prog):
+    """value of TMCG_MAX_FPOWM_T as the source uses it (the row count every fixed-base table is allocated with)"""
+    if id(prog) not in _FPOWM_ROWS:
+        v = None
+        for f in prog.funcs.values():
+            if f.get('body') and f['file'].endswith('mpz_spowm.cc'):
+                for e in walk(f['body']):
+                    if e.get('k') == 'int' and e.get('m') == 'TMCG_MAX_FPOWM_T':
+                        v = e['v']
+        _FPOWM_ROWS[id(prog)] = v
+    return _FPOWM_ROWS[id(prog)]
+
+
 # ---------------------------------------------------------------------------------- S2
 def s2(ctx, taint, off):
     prog = ctx.prog
@@ -216,6 +232,7 @@ def s2(ctx, taint, off):
             continue
         a = ctx.analysis(f)
         T = a.T
+        a.fpowm_rows = fpowm_rows(prog)
         seen = set()
         occ = {}
         for nid, ev in sorted(a.all_events('index'), key=lambda x: (x[1][3], x[0])):
